@@ -272,14 +272,15 @@ Definition burst_single_ok (cap0 : Z) (W : list bwrite) (del : bool) (univ : lis
    has lost none of them *)
 Definition burst_wide_ok (cap0 n : Z) (route : Z -> nat) (W : list bwrite) (del : bool) (univ : list Z) (panicked : bool) (probe : list bprobe) : bool :=
   let present := flat_map (fun p => match p with (k, _, Some x) => [(k, x)] | _ => [] end) probe in
-  let shard i := filter (fun k => Nat.eqb (route k) i) univ in
+  let pkeys := map fst present in
   negb panicked
   && zlist_eqb (map (fun p => fst (fst p)) probe) univ
   && forallb (fun p => let '(k, b, o) := p in Bool.eqb b (is_some o) && match o with Some x => is_some (wsize k x W) | None => true end) probe
-  && forallb (fun k =>
-       let i := route k in
+  && forallb (fun i =>
+       let ks := filter (fun k => Nat.eqb (route k) i) univ in
        (osum (item_sizes W (filter (fun it => Nat.eqb (route (fst it)) i) present)) <=? shard_cap cap0 n)
-       && (if need W (shard i) <=? shard_cap cap0 n then del || negb (written k W) || zmem k (map fst present) else true)) univ.
+       && (if need W ks <=? shard_cap cap0 n then del || forallb (fun k => negb (written k W) || zmem k pkeys) ks else true))
+     (nodup Nat.eq_dec (map route univ)).
 
 Definition burst_dom (cap0 : Z) (wide : option (Z * option (list (Z * nat)))) (univ sizes : list Z) (progs : list (list Z)) : bool :=
   inB cap0 && nodupb univ && forallb inB sizes && (length univ =? length sizes)%nat
